@@ -42,6 +42,10 @@ def poll_rules(ctx, which):
         pp = s.node["p"]["p"]
         if pp and pp[-1] != "*" and pp[-1][0] == "f" and pp[-1][2] == "pending_futures_count":
             decs.append(s)
+    adt = POLLS[which].split(" as ")[0].lstrip("<")
+    ow = K.whole_value_overwrites(P, {adt})
+    ctx.ob("%s|future-never-replaced-in-place" % tag, not ow,
+           "no statement overwrites a live BroadcastFuture as a whole (that would reset the pending counter and the sub-future states)", ow or decs)
     ctx.ob("%s|two-decrement-sites" % tag, len(decs) == 2, "the pending counter is decremented at one site per pass (found %d)" % len(decs), decs)
     for d in decs:
         ok = False
